@@ -14,6 +14,7 @@ import json
 import os
 import re
 import threading
+import time
 from fractions import Fraction as F
 
 import translate_colors
@@ -208,10 +209,10 @@ def rand_rgb(rng):
     return rng.randrange(256), rng.randrange(256), rng.randrange(256)
 
 
-def rand_color(rng, allow_alpha=True):
-    """A colour written in one of the spellings / colour spaces."""
+def rand_color(rng, allow_alpha=True, rgb_only=False):
+    """A colour written in one of the spellings / colour spaces (`rgb_only`: no stored HSL)."""
     r, g, b = rand_rgb(rng)
-    k = rng.random()
+    k = rng.random() * (0.8 if rgb_only else 1)
     if k < 0.35:
         return hx(hex6(r, g, b))
     if k < 0.45:
@@ -290,8 +291,8 @@ def function_cases(rng, n_each):
         signed = lambda xs: xs if upd == "change" else xs + ["-" + x for x in xs if frac(x) > 0]
         if upd == "scale":
             val = lambda: num(rng.choice(signed(["0", "10", "50", "100", "100.5"])), "pct")
-            names = {"rgb": ["red", "green", "blue"], "hsl": ["saturation", "lightness"], "hwb": ["whiteness", "blackness"],
-                     "alpha": ["alpha"], "mixed": ["red", "lightness", "whiteness"]}[space]
+            names = {"rgb": ["red", "green", "blue", "alpha"], "hsl": ["saturation", "lightness", "alpha"],
+                     "hwb": ["whiteness", "blackness", "alpha"], "alpha": ["alpha"], "mixed": ["red", "lightness", "whiteness"]}[space]
             for k in names:
                 if rng.random() < 0.6:
                     kw.append((k, val()))
@@ -312,7 +313,7 @@ def function_cases(rng, n_each):
                 for k in ("whiteness", "blackness"):
                     if rng.random() < 0.6:
                         kw.append((k, num(rng.choice(signed(["0", "10", "50", "100", "100.5"])), "pct")))
-        if space == "alpha" or rng.random() < 0.3:
+        if upd != "scale" and (space == "alpha" or rng.random() < 0.3):
             kw.append(("alpha", num(rng.choice(signed(["0", "0.25", "0.5", "1", "1.001"])))))
         if kw:
             order = ["red", "green", "blue", "alpha", "hue", "saturation", "lightness", "whiteness", "blackness"]
@@ -335,7 +336,10 @@ def law_cases(rng, n):
         L(accessors_roundtrip(o, "hsl"), o, "rgb_hsl_rgb_accessors")
         L(accessors_roundtrip(o, "hwb"), o, "rgb_hwb_rgb_accessors")
         L(accessors_roundtrip(c, "hsla"), c, "rgb_hsl_rgb_accessors")
-        L(accessors_roundtrip(c, "hwba"), c, "rgb_hwb_rgb_accessors")
+        # hue() of a colour built by hsl() is the stored hue, whiteness()/blackness() come from the rounded
+        # channels: the HWB round trip is a law of 8-bit RGB colours only (as the property says)
+        c8 = rand_color(rng, rgb_only=True)
+        L(accessors_roundtrip(c8, "hwba"), c8, "rgb_hwb_rgb_accessors")
         L(accessors_roundtrip(c, "rgba"), c, "canon")
         L(call("invert", call("invert", c)), c, "invert_invert")
         L(call("complement", call("complement", c)), c, "complement_complement")
@@ -522,7 +526,7 @@ def compare_slot(m, ob):
     _, comp, exp = ob
     p = m.split(" ")
     if p[1] == "color":
-        mc, me = unhex(p[8]), unhex(p[10])
+        mc, me = unhex(p[7]), unhex(p[9])
         if comp == mc and exp == me:
             return None
         return f"printed colour differs: model {mc!r} / {me!r} vs impl {comp!r} / {exp!r}"
@@ -550,8 +554,11 @@ def evaluate(ck, cases, pool, direct_only=False):
         for k, e in enumerate(c.exprs):
             slots.append(e)
             owner.append((ci, k))
+    t0 = time.time()
     model = driver_par(["color eval " + " ".join(to_tokens(e)) for e in slots])
+    t1 = time.time()
     impl = run_impl(pool, [to_sass(e) for e in slots], model)
+    log(f"[C15] {len(cases)} cases / {len(slots)} expressions: model {t1 - t0:.1f}s, grass {time.time() - t1:.1f}s")
     # (c) range predicate, evaluated by the Lean driver on what grass printed
     range_req, range_idx = [], []
     for i, ob in enumerate(impl):
@@ -694,6 +701,7 @@ def run(tier, seed):
     ]
     ok_tr, info = translator_step(ck)
     ck.do_prove(cores=("color",))
+    log(f"[C15] proof step {ck.proof.get('wall_s', 0):.1f}s ok={ck.proof['ok']}")
     if not ok_tr:
         ck.unproved("correspondence-broken", {"why": "translator failed or reference table out of sync", "detail": ck.cov["translator"]})
         return ck.finish()
